@@ -8,6 +8,9 @@ degrees) the check enumerates
   3x3 lattice over the enlarged bounding box of every single column (so that columns much smaller than the
   lattice step are hit), minus points within 1e-6 x (longest side of the column) of any column edge;
   each point is looked up with no aid, with every search aid singly and with every pair of aids;
+* vertex-aligned points: for every node, the points whose y is exactly the node's y, one ulp below and one ulp
+  above it, at three x offsets left and right of the node (the inputs on which the half-open crossing rule of
+  in_polygon is decided; E3's 'limit and its floating-point neighbours'), same exclusion; aids singly;
 * 3-D points: per column one interior point x the elevations {middle of every layer, just below its top,
   just above its bottom, just below / above the column surface, half way between the surface and the next
   layer boundary above it, far above, just below and far below the bottom}, with and without a quadtree;
@@ -34,7 +37,8 @@ RULE = ('per geometry: every point of the shifted 41x41 lattice over the enlarge
         'lattice of every column, not within tolerance of an edge, x every search-aid combination (none; guess = '
         'every column (<= 120 columns) or the true/nearest column, each of its neighbours, the farthest column; bounds '
         '= boundary polygon, bounding rectangle; columns = true column + neighbours, the x-half and the y-half of the '
-        'columns containing it; quadtree over all columns and over each such subset; every pair of aids); per column '
+        'columns containing it; quadtree over all columns and over each such subset; every pair of aids); for every node '
+        'the 9 points (3 x offsets) x (y of the node, its two floating-point neighbours) x every single aid; per column '
         'one interior point x the elevation set x {no quadtree, quadtree}; every ordered pair of lattice points as a '
         'line, not within tolerance of a node. A case is distinct by (geometry, point or line or (column, elevation), '
         'aid combination); a point case is non-trivial when the point is inside the bounding box, a line case when the '
@@ -58,12 +62,18 @@ ASSUMPTIONS = [
     'centre) because refine() names new columns in set order',
 ]
 BOUNDS = {
-    'quick': {'geometries': ['rect', 'rect_rr', 'g7', 'g7_rr'], 'point_lattice': '41x41 + 3x3 per column',
-              'aids': 'singly, plus all pairs with the reduced guess set', 'line_lattice': '7x7 (2352 ordered pairs)',
-              'guess': 'every column when <= 120 columns'},
+    'quick': {'geometries': ['rect', 'rect_rr', 'g7', 'g7_rr'],
+              'point_lattice': '41x41 + 3x3 per column + 9 vertex-aligned points per node',
+              'aids': 'every single aid and every pair of aids (pairs and vertex-aligned points use the reduced guess set: '
+                      'true/nearest column, its neighbours, the farthest column)',
+              'line_lattice': '7x7 (2352 ordered pairs per geometry)',
+              'guess': 'every column when the geometry has <= 120 columns', 'elevations': 'full set, every column'},
     'thorough': {'geometries': ['rect', 'rect_rr', 'g7', 'g7_rr', 'g5', 'g5_rr', 'g1', 'g1_rr'],
-                 'point_lattice': '41x41 + 3x3 per column', 'aids': 'singly and all pairs',
-                 'line_lattice': '9x9 (6480 ordered pairs)', 'guess': 'every column when <= 120 columns'},
+                 'point_lattice': '41x41 + 3x3 per column + 9 vertex-aligned points per node',
+                 'aids': 'every single aid and every pair of aids (pairs and vertex-aligned points use the reduced guess '
+                         'set: true/nearest column, its neighbours, the farthest column)',
+                 'line_lattice': '9x9 (6480 ordered pairs per geometry)',
+                 'guess': 'every column when the geometry has <= 120 columns', 'elevations': 'full set, every column'},
 }
 TECHNIQUE = ('lattice enumeration (E3) of points x search-aid combinations, 3-D points and lines on the real mulgrid '
              'methods against an exact integer-arithmetic reference geometry')
@@ -84,7 +94,8 @@ EDGE_TOL = 1e-6
 CLIP_TOL = 1e-3
 GUESS_ALL_MAX = 120
 VERTEX_DX = (-0.37, -1.93, 0.41)   # x offsets of the vertex-aligned points, in units of the shortest adjacent column's longest side
-CASE_LIMIT = 60.0          # seconds, backstop only
+CASE_LIMIT = 20.0          # seconds per library call; backstop only (a call takes milliseconds on the unchanged tree)
+MAX_TIMEOUTS = 2           # a work unit stops exploring after this many timeouts (reported; evidence then says cap_hit)
 
 
 def quiet():
@@ -335,7 +346,7 @@ def units(tier):
     nline = NLINE[tier]
     for g in GEOS[tier]:
         big = g[:2] in ('g5', 'g1')
-        nrow = 14 if big else 4
+        nrow = 4 if g.startswith('rect') else 14
         for ch in core.chunks(range(NP), nrow):
             us.append(('P', g, ch[0], ch[-1] + 1))
         ncolchunk = 12 if big else 3
@@ -449,7 +460,13 @@ def do_point(ctx, pid, p, tier, rec, pairs=True, all_guesses=True, tag='points')
     for spec, acls in aid_specs(ctx, T, p, pairs, all_guesses):
         viol, oc, got = point_query(ctx, p, T, spec, acls)
         rec.case((ctx.name, pid, sorted(spec.items())), nontrivial=inbox, outcome=oc)
-        if viol and len(spec) == 1:
+        if viol and len(spec) == 0:
+            failed_single[()] = got
+        elif viol and failed_single.get((), '?') == got:
+            # the unaided search already gives this wrong answer at this point: reported once, under 'aids=none'
+            rec.count('aided_failures_implied_by_the_failing_unaided_search')
+            continue
+        elif viol and len(spec) == 1:
             failed_single[list(spec.items())[0]] = got
         elif viol and any(failed_single.get(kv, '?') == got for kv in spec.items()):
             # the same wrong answer as one of the two aids gives alone at this point: one defect, reported once
@@ -459,6 +476,8 @@ def do_point(ctx, pid, p, tier, rec, pairs=True, all_guesses=True, tag='points')
         for sig, what in viol:
             rec.violation(sig, what, {'kind': 'point', 'geo': ctx.name, 'tier': tier, 'p': [p[0], p[1]],
                                       'spec': spec, 'aidclass': acls})
+        if oc == 'timeout':
+            note_timeout(rec)
 
 
 # --------------------------------------------------------------------------------------------
@@ -519,8 +538,13 @@ def block_query(ctx, ci, p, z, zc, q):
     if got == want:
         return [], ('block' if want is not None else 'none')
     s = ctx.surface[ci]
-    if want is None and z > s and ctx.lay[-1][1] < s and z < ctx.lay[0][1]:
-        # in the air between the column surface and the top of the model: one signature per geometry
+    ks = [kk for kk in range(1, len(ctx.lay)) if ctx.lay[kk][1] < s]
+    air = None
+    if ks:
+        air = block_name_ref(ctx.geo.convention, ctx.cols[ci].name, ctx.lay[ks[0]][0])
+    if want is None and air is not None and got == air and s < z < ctx.lay[ks[0] - 1][1]:
+        # in the air between the column surface and the top of the column's surface layer, reported to be in the
+        # column's topmost block: one signature per geometry
         return [('C12|block_name_containing_point|block-for-point-above-column-surface|%s' % ctx.name,
                  'point (%r, %r, %r) is above the surface %r of column %r (layer boundaries %r), i.e. outside every block; '
                  'library returned %r' % (p[0], p[1], z, s, ctx.labels[ci], [b for _, b in ctx.lay], got))], \
@@ -549,6 +573,8 @@ def do_blocks(ctx, ci, tier, rec):
             for sig, what in viol:
                 rec.violation(sig, what, {'kind': 'block', 'geo': ctx.name, 'tier': tier, 'col': ctx.labels[ci],
                                           'p': [p[0], p[1]], 'z': z, 'zclass': zc, 'qtree': q})
+            if oc == 'timeout':
+                note_timeout(rec)
         k = ctx.ref_block(ci, z)
         if k is not None:
             nm = block_name_ref(ctx.geo.convention, ctx.cols[ci].name, ctx.lay[k][0])
@@ -621,7 +647,7 @@ def compare_track(ctx, A, B, lib):
             if all(g <= 2.0 * CLIP_TOL * mesh.longest[ci] for g in gaps):
                 m = span
             else:
-                out.append(('reentrant-column-merged', 'col=' + lab,
+                out.append(('reentrant-column-merged', '',
                             'line leaves column %r for %.6g (its longest side is %.6g) and re-enters; the track has one '
                             'segment %r -> %r over the gap' % (lab, max(gaps), mesh.longest[ci], pin, pout)))
                 bad_cols.add(ci)
@@ -653,11 +679,19 @@ def compare_track(ctx, A, B, lib):
         if k in matched or ci in bad_cols or ln <= 2.0 * thr[k]:
             continue
         lab = ctx.labels[ci]
-        cls = 'short-relative-to-distance-from-line-start' if ln < 1.1e-3 * pos[k][1] else 'not-short'
-        out.append(('segment-missing', 'col=%s|%s' % (lab, cls),
-                    'line %r -> %r crosses column %r over a length %.6g = %.3g x its longest side (%.6g), %.3g x the '
+        # input class: pieces no longer than a thousandth of their distance from the line start (the class in which
+        # the crossing de-duplication of line_polygon_intersections operates, F16), by severity; anything longer
+        # is a different failure and is keyed by column
+        r = ln / thr[k]
+        if ln < 1.1e-3 * pos[k][1]:
+            cls = 'short-relative-to-distance-from-line-start|%s' % (
+                'x2-4' if r <= 4 else 'x4-8' if r <= 8 else 'x8-16' if r <= 16 else 'x16-32' if r <= 32 else 'x32+')
+        else:
+            cls = 'not-short|col=' + lab
+        out.append(('segment-missing', cls,
+                    'crosses column %r over a length %.6g = %.3g x its longest side (%.6g), %.3g x the '
                     'documented threshold, starting %.6g from the line start; the track omits it'
-                    % (A, B, lab, ln, ln / mesh.longest[ci], mesh.longest[ci], ln / thr[k], pos[k][0])))
+                    % (lab, ln, ln / mesh.longest[ci], mesh.longest[ci], ln / thr[k], pos[k][0])))
     # order along the line
     ok = [f for f in first if f is not None]
     if any(ok[i + 1][0] <= ok[i][0] for i in range(len(ok) - 1)):
@@ -681,14 +715,6 @@ def compare_track(ctx, A, B, lib):
         if abs(got - want) > 2 * tolp * (len(lib) + 1):
             out.append(('length-sum', '', 'segment lengths add to %.9g, matched exact pieces to %.9g' % (got, want)))
     return out, ref
-
-
-def line_class(ctx, A, B, ref, TA, TB):
-    a = 'in' if TA is not None else 'out'
-    b = 'in' if TB is not None else 'out'
-    if not ref:
-        return a + '->' + b + ':misses-domain'
-    return a + '->' + b
 
 
 def line_case(ctx, A, B):
@@ -735,11 +761,31 @@ def do_lines(ctx, lo, hi, tier, rec):
             for sig, what in viol:
                 rec.violation(sig, what, {'kind': 'line', 'geo': ctx.name, 'tier': tier, 'A': [A[0], A[1]],
                                           'B': [B[0], B[1]]})
+            if oc == 'timeout':
+                note_timeout(rec)
 
 
 # --------------------------------------------------------------------------------------------
 
+class UnitAborted(Exception):
+    pass
+
+
+def note_timeout(rec):
+    rec.count('timeouts')
+    if rec.counters['timeouts'] >= MAX_TIMEOUTS:
+        rec.count('cap_hit')
+        raise UnitAborted()
+
+
 def run_unit(unit, tier, rec):
+    try:
+        _run_unit(unit, tier, rec)
+    except UnitAborted:
+        rec.notes.append('unit %r stopped after %d timeouts' % (unit, MAX_TIMEOUTS))
+
+
+def _run_unit(unit, tier, rec):
     core.load_library()
     kind, g, lo, hi = unit
     ctx = ctx_for(g, tier)
